@@ -8,6 +8,7 @@ import (
 	"net/http"
 	"os"
 	"strings"
+	"sync"
 	"testing"
 	"testing/synctest"
 	"time"
@@ -28,6 +29,19 @@ type runOpts struct {
 	afterResp func(k int, req *http.Request, resp *http.Response)
 	onCall    func(idx int, req *http.Request)
 	ops       *[]opInfo // when set: the store operations of the run, in order
+}
+
+// findings about request objects (the caller's request modified; an upstream request that changes after the caller
+// reused its own), collected over all cases of a run: "N <case> <k> <code> <detail>"
+var (
+	reqNotesMu sync.Mutex
+	reqNotes   []string
+)
+
+func addReqNote(caseID string, k int, code, detail string) {
+	reqNotesMu.Lock()
+	defer reqNotesMu.Unlock()
+	reqNotes = append(reqNotes, fmt.Sprintf("N %s %d %s %s\n", caseID, k, code, strings.ReplaceAll(detail, "\n", " ")))
 }
 
 // runCase executes one case against the real transport inside a synctest bubble and returns the
@@ -72,6 +86,8 @@ func runCase(t *testing.T, c *Case, opts runOpts) []string {
 		dsn := registerConn(conn)
 		defer unregisterConn(dsn)
 		org := &origin{script: c.Script, rec: rec, onCall: opts.onCall}
+		curK := 0
+		org.note = func(code, detail string) { addReqNote(c.ID, curK, code, detail) }
 		tops := []httpcache.Option{httpcache.WithUpstream(org), httpcache.WithSWRTimeout(c.SWRTimeout)}
 		if opts.debug {
 			tops = append(tops, httpcache.WithLogger(slog.New(slog.NewTextHandler(io.Discard,
@@ -95,6 +111,11 @@ func runCase(t *testing.T, c *Case, opts runOpts) []string {
 			if opts.beforeReq != nil {
 				opts.beforeReq(k, req)
 			}
+			curK = k
+			org.mu.Lock()
+			org.clientURL = req.URL.String()
+			org.mu.Unlock()
+			reqSnap := reqSnapshot(req)
 			t0 := time.Now()
 			var resp *http.Response
 			var rerr error
@@ -130,6 +151,17 @@ func runCase(t *testing.T, c *Case, opts runOpts) []string {
 					opts.afterResp(k, req, resp)
 				}
 			}
+			// RoundTrip has returned and the body is closed: the request is the caller's again.  It must be as it was ...
+			if after := reqSnapshot(req); after != reqSnap {
+				addReqNote(c.ID, k, "caller-request-modified", reqSnap+" -> "+after)
+			}
+			// ... and the caller may reuse it (net/http.RoundTripper): nothing still running may look at it
+			req.URL.Path += "/reused"
+			req.URL.RawQuery = "reused=1"
+			for name := range req.Header {
+				req.Header[name] = []string{"reused"}
+			}
+			req.Header.Set("X-Custom", "reused")
 			fg, _ := rec.drain2fg()
 			b.WriteString(evTokens(fg))
 			quiesce(org, synctest.Wait)
